@@ -5,6 +5,7 @@ arithmetic stays symbolic (and linear per byte) under CrossHair.  Validated
 against the real compiled extension on every run by vlib.validate_stubs.
 """
 import re
+import struct as _struct
 
 _FMT_CACHE = {}
 
@@ -22,14 +23,15 @@ def _bits_total(items):
 
 
 def unpack_from(fmt, buffer, offset=0):
+    """NB: like the real extension, `offset` is a BIT offset"""
     items = _parse(fmt)
     total = _bits_total(items)
-    nbytes = (total + 7) // 8
-    chunk = buffer[offset:offset + nbytes]
+    nbytes = (offset + total + 7) // 8
+    chunk = buffer[:nbytes]
     if len(chunk) < nbytes:
         raise TypeError('unpack requires at least %d bits to unpack' % total)
     out = []
-    pos = 0
+    pos = offset
     for k, n in items:
         val = 0
         bit = pos
@@ -66,8 +68,5 @@ def pack(fmt, *vals):
             raise TypeError('value out of range')
         acc = acc * (2 ** n) + x
     acc = acc * (2 ** (nbytes * 8 - total))
-    out = []
-    for i in range(nbytes):
-        shift = 8 * (nbytes - 1 - i)
-        out.append((acc // (2 ** shift)) % 256)
-    return bytes(out)
+    # struct.pack keeps the value symbolic under CrossHair (bytes([...]) of symbolic ints would realise them)
+    return _struct.pack('>Q', acc)[8 - nbytes:]
